@@ -594,65 +594,61 @@ func (st *c12State) widthAgreement() {
 		c.undecided("C12.f", "width method/emulator", 0, "the function of package ansi that measures printed graphemes was not found")
 		return
 	}
-	// renderer side: gwidth arm selected under each assignment of the EMU flags
+	// renderer side: the measuring libraries RenderedWidth reaches under each assignment of the EMU flags,
+	// found by executing RenderedWidth (and the helpers it calls, whatever their factoring: a switch or
+	// if-chain over a method constant, one call site or several) with the capability flags fixed.
 	flags := []string{"unicodeCore", "explicitWidth", "noZWJ"}
-	g := c.P.Graph(rw)
-	type site struct {
-		loc    Loc
-		method ast.Expr
-	}
-	var sites []site
-	for _, h := range g.Calls(func(fn *types.Func, _ *ast.CallExpr) bool { return fn != nil && fn == gw.Obj }) {
-		call := h.Node.(*ast.CallExpr)
-		if len(call.Args) == 2 {
-			sites = append(sites, site{h.Loc, call.Args[1]})
+	rendererLibs := func(sigma map[string]bool) (libs map[string]bool, how string, undec string) {
+		init := map[string]c12Val{}
+		for k, v := range sigma {
+			init[k] = c12Bool{v}
 		}
-	}
-	if len(sites) == 0 {
-		c.undecided("C12.f", "width method/"+rw.Name, rw.Decl.Pos(), "no call of gwidth in RenderedWidth")
-		return
-	}
-	// the switch of gwidth over its method parameter
-	ginfo := gw.Pkg.TypesInfo
-	var sw *ast.SwitchStmt
-	ast.Inspect(gw.Decl.Body, func(n ast.Node) bool {
-		if s, ok := n.(*ast.SwitchStmt); ok && sw == nil && s.Tag != nil {
-			sw = s
+		paths, complete := c12RunOpt(c.P, rw, &c12Exec{init: init, generic: true,
+			inlineIf: func(fi *FuncInfo, _ []c12Val) bool { return true }}, c12Sym{Hole: -1, Desc: "s"})
+		if !complete {
+			return nil, "", "path budget exceeded"
 		}
-		return sw == nil
-	})
-	if sw == nil {
-		c.undecided("C12.f", "width method/"+gw.Name, gw.Decl.Pos(), "gwidth has no switch over the method")
-		return
-	}
-	armLibs := func(m int64) (map[string]bool, string) {
-		var deflt *ast.CaseClause
-		for _, cl := range sw.Body.List {
-			cc := cl.(*ast.CaseClause)
-			if cc.List == nil {
-				deflt = cc
+		libs = map[string]bool{}
+		hows := map[string]bool{}
+		for _, p := range paths {
+			if len(p.Unsupp) > 0 {
+				return nil, "", strings.Join(c12Dedup(p.Unsupp), "; ")
 			}
-			for _, e := range cc.List {
-				if v, ok := constInt(ginfo, e); ok && v == m {
-					libs := map[string]bool{}
-					for _, s := range cc.Body {
-						for k := range c12MeasureLibs(ginfo, s) {
-							libs[k] = true
-						}
+			if len(p.Skipped) > 0 {
+				return nil, "", strings.Join(c12Dedup(p.Skipped), "; ")
+			}
+			for _, cl := range p.Calls {
+				if cl.Fn == nil || cl.Fn.Pkg() == nil {
+					if cl.Fn == nil {
+						return nil, "", "dynamic call " + cl.Name
 					}
-					return libs, types.ExprString(e)
+					continue
+				}
+				pp := cl.Fn.Pkg().Path()
+				if fi := c.P.FuncOfObj(cl.Fn); fi != nil {
+					if cl.Inlined {
+						if fi.Obj == gw.Obj && len(cl.Args) == 2 {
+							hows[c12Show(cl.Args[1])] = true
+						}
+						continue
+					}
+					if fi.Decl.Body != nil && fi.Pkg == rw.Pkg {
+						return nil, "", "call of " + fi.Name + " not followed"
+					}
+					// another repository package (log): measures nothing if it calls no third-party measuring library
+					for k := range c12MeasureLibs(fi.Pkg.TypesInfo, fi.Decl) {
+						libs[k] = true
+					}
+					continue
+				}
+				if strings.Contains(pp, ".") && !strings.HasPrefix(pp, modPath) {
+					if sig, ok := cl.Fn.Type().(*types.Signature); ok && sig.Results().Len() > 0 {
+						libs[pp] = true
+					}
 				}
 			}
 		}
-		libs := map[string]bool{}
-		if deflt != nil {
-			for _, s := range deflt.Body {
-				for k := range c12MeasureLibs(ginfo, s) {
-					libs[k] = true
-				}
-			}
-		}
-		return libs, "default"
+		return libs, strings.Join(c12KeysOf(hows), ","), ""
 	}
 	var maybe []string
 	base := map[string]bool{}
@@ -675,35 +671,24 @@ func (st *c12State) widthAgreement() {
 		for i, f := range maybe {
 			sigma["Vaxis.caps."+f] = m&(1<<i) != 0
 		}
-		var sel []ast.Expr
-		for _, s := range sites {
-			if holds, _ := g.reachableUnder(s.loc, sigma); holds {
-				sel = append(sel, s.method)
-			}
-		}
 		var desc []string
 		for _, f := range flags {
 			desc = append(desc, fmt.Sprintf("%s=%v", f, sigma["Vaxis.caps."+f]))
 		}
 		key := fmt.Sprintf("width method/under the emulator's capabilities (%s) the renderer measures graphemes like the emulator does", strings.Join(desc, " "))
-		if len(sel) != 1 {
-			c.undecided("C12.f", key, rw.Decl.Pos(), "%d gwidth calls selected", len(sel))
+		libs, how, undec := rendererLibs(sigma)
+		if undec != "" {
+			c.undecided("C12.f", key, rw.Decl.Pos(), "RenderedWidth not understood: %s", undec)
 			continue
 		}
-		mv, ok := constInt(rw.Pkg.TypesInfo, sel[0])
-		if !ok {
-			c.undecided("C12.f", key, rw.Decl.Pos(), "method %s is not constant", types.ExprString(sel[0]))
-			continue
-		}
-		libs, arm := armLibs(mv)
 		same := len(libs) == len(emuLibs)
 		for k := range libs {
 			if !emuLibs[k] {
 				same = false
 			}
 		}
-		c.check(same, "C12.f", key, rw.Decl.Pos(), fmt.Sprintf("method %s (arm %s of gwidth) and %s both measure with %v", types.ExprString(sel[0]), arm, emuFn, c12KeysOf(emuLibs)),
-			fmt.Sprintf("the emulator measures every printed grapheme with %v (%s) and advances its cursor by that width, but it does not report mode 2027, so a Vaxis child selects method %s, which measures with %v: for a grapheme on which the two disagree (U+2764 U+FE0F: 1 vs 2) every following cell of the row lands in a different column than the child's screen has it", c12KeysOf(emuLibs), emuFn, types.ExprString(sel[0]), c12KeysOf(libs)))
+		c.check(same, "C12.f", key, rw.Decl.Pos(), fmt.Sprintf("RenderedWidth (gwidth method %s) and %s both measure with %v", how, emuFn, c12KeysOf(emuLibs)),
+			fmt.Sprintf("the emulator measures every printed grapheme with %v (%s) and advances its cursor by that width, but under the capabilities it reports a Vaxis child selects width method %s, which measures with %v: for a grapheme on which the two disagree (U+2764 U+FE0F: 1 vs 2) every following cell of the row lands in a different column than the child's screen has it", c12KeysOf(emuLibs), emuFn, how, c12KeysOf(libs)))
 	}
 }
 
